@@ -98,6 +98,9 @@ class FileAccessor(neuroglancer_scripts.accessor.Accessor):
             raise ValueError("only relative paths pointing under base_path "
                              "are accepted")
         mode = "wb" if overwrite else "xb"
+        if not overwrite and self.file_exists(relative_path):
+            # The file may exist under the other name (with or without .gz)
+            raise DataAccessError(f"Error storing {file_path}: file exists")
         try:
             os.makedirs(str(file_path.parent), exist_ok=True)
             if self.gzip and mime_type not in NO_COMPRESS_MIME_TYPES:
